@@ -26,8 +26,8 @@ strong-convexity constant μ is certified by the same call (`isSCCert` on the fa
 Findings on the unchanged tree (known-findings.json, keys `C02:stepsize-collapse:*`,
 `C02:first-order-iteration-budget:*`): about 1 % of the runs do not return Converged; every one of them
 is recognised by an exact-arithmetic impossibility argument (final step size more than 2¹⁰ below
-1/L_ref) resp. by the budget really having been spent in converging inner solves of a stack without
-curvature information.  Any other non-convergence, and every bound violation, exits 1.
+1/L_ref) resp., for FISTA under ALM, by the budget really having been spent in failed inner solves at
+the solution.  Any other non-convergence, and every bound violation, exits 1.
 """
 import math
 import os
@@ -685,13 +685,14 @@ def monitor(op_line, out_line, st):
             stat('known_stepsize_collapse')
             return (msg + f'  [step size collapsed: gamma*L_ref = {g * L_ref:.3g} < 2^-10]',
                     f'C02:stepsize-collapse:{stack.split("-")[0]}')
-        # First-order stacks (no curvature information): linear rate ∝ cond(ψ_Σ); with the penalties ALM
-        # reaches this exceeds any fixed budget on part of the class (finding, see known-findings.json).
-        # Recognised narrowly: the budget was really spent inside inner solves that were still converging.
-        if (stack in FIRST_ORDER and r['status'] == 'MaxIter' and r['inner_iters'] >= limits(stack)
+        # FISTA under ALM (finding, see known-findings.json): once its step size has dropped, inner solves
+        # end MaxIter, ALM inflates the penalty (so L_ref grows and the criterion above is masked) and the
+        # 100 x 1e6 budget is exhausted.  Recognised narrowly: the budget was really spent inside failed
+        # inner solves and the iterate is at the solution to 1e-3.
+        if (stack == 'fista' and r['status'] == 'MaxIter' and r['inner_iters'] >= limits(stack)
                 and (mode == 'inner' or r['inner_fail'] >= 1) and dist <= 1e-3):
             stat('known_first_order_budget')
-            return (msg + '  [first-order stack exhausted its iteration budget while converging]',
+            return (msg + '  [FISTA exhausted its iteration budget with a collapsed step size / inflated penalty]',
                     f'C02:first-order-iteration-budget:{stack.split("-")[0]}')
         return msg
     if any(not math.isfinite(a) for a in x + y):
